@@ -1,4 +1,5 @@
 import Crv.Proofs.Repo
+import Crv.Proofs.Skeleton
 import Crv.Props.C18
 /-!
 C11 — Precision: only entries of CRLs in force, under the same issuer, can revoke.
@@ -8,8 +9,9 @@ injective; FNV-64 collisions an explicit hypothesis) is `Crv.Props.C18` / `Crv/P
 namespace Crv.Props.C11
 open Crv Crv.Repo Crv.Generated
 
-/-- A `revoked` answer always comes from a loaded, open entry whose document — accepted under the configured policy —
-lists exactly this serial under exactly this issuer name. Every reachable state, every enumeration order. -/
+/-- A `revoked` answer always comes from a loaded, open entry whose document — accepted under the policy configured at its
+intake (histories may restart with another signature mode) — lists exactly this serial under exactly this issuer name.
+Every reachable state, every enumeration order. -/
 theorem revoked_implies_listed (cfg : Cfg) (ops : List Op) (c : Cert) (order : List (Loc × Entry))
     (hsub : ∀ p ∈ order, p ∈ (run cfg ops).entries)
     (h : isRevoked (run cfg ops) order c = .revoked) :
@@ -33,7 +35,7 @@ theorem revoked_implies_listed (cfg : Cfg) (ops : List Op) (c : Cert) (order : L
   | none => simp [hdoc] at hlist
   | some d =>
     simp only [hdoc, Bool.and_eq_true, beq_iff_eq] at hlist
-    exact ⟨loc, d, ⟨e, hmem, hl, hcl, hdoc⟩, (hinv.1 (loc, e) hmem).1 d hdoc, hlist.1, List.contains_iff_mem.mp hlist.2⟩
+    exact ⟨loc, d, ⟨e, hmem, hl, hcl, hdoc⟩, (hinv.1 (loc, e) hmem).store.accepted d hdoc, hlist.1, List.contains_iff_mem.mp hlist.2⟩
 
 /-- Another issuer sharing the serial is not affected; near-miss serials are not affected. -/
 theorem other_issuer_not_listed (st : Store) (d : DocA) (c : Cert) (hd : st.doc = some d) (hi : d.issuer ≠ c.issuer) :
@@ -111,5 +113,15 @@ def exOps : List Op :=
   [.serve 1 (.doc ⟨7, [13], 9, 1⟩), .handshake ⟨7, 13, some 1⟩ [1], .serve 1 (.doc ⟨7, [10], 1, 2⟩), .handshake ⟨7, 13, some 1⟩ [1]]
 example : isRevoked (run {} exOps) (run {} exOps).entries ⟨7, 13, some 1⟩ = .notRevoked := by decide
 example : isRevoked (run {} exOps) (run {} exOps).entries ⟨7, 10, some 1⟩ = .revoked := by decide
+
+/-- The hand-written `Repo` model this property rests on was transcribed from exactly these sources: the fingerprints are
+recomputed from /repo on every run (tools/extract/skeleton.go), so any change to one of the functions breaks this obligation. -/
+theorem repo_sources_as_transcribed : Crv.Generated.skeletonRepo = Crv.Skeleton.expectedRepo :=
+  Crv.Skeleton.repo_sources_as_transcribed
+
+/-- The hand-written `Store` model this property rests on was transcribed from exactly these sources: the fingerprints are
+recomputed from /repo on every run (tools/extract/skeleton.go), so any change to one of the functions breaks this obligation. -/
+theorem store_sources_as_transcribed : Crv.Generated.skeletonStore = Crv.Skeleton.expectedStore :=
+  Crv.Skeleton.store_sources_as_transcribed
 
 end Crv.Props.C11
